@@ -155,6 +155,55 @@ class PatGen:
             return ("arr", [self.random(d - 1) for _ in range(self.r.randint(0, 3))])
         return self.lit()
 
+    def wrong_lit(self, v):
+        for _ in range(20):
+            p = self.lit(None, True)
+            if not pyref.binop("==", v, p[1]):
+                return p
+        return ("lit", "no such value")
+
+    def late_miss(self, v, d=2):
+        """for an array value: a pattern of the same length that BINDS names at earlier positions (or deeper inside) and
+        then fails on a later element; None if the value offers no such position"""
+        if not isinstance(v, list) or not v:
+            return None
+        deep = [j for j in range(len(v)) if d > 0 and isinstance(v[j], list) and len(v[j]) >= 2]
+        flat = [j for j in range(1, len(v))]
+        if not deep and not flat:
+            return None
+        if deep and (not flat or self.r.random() < 0.4):
+            j = self.r.choice(deep)
+            failing = self.late_miss(v[j], d - 1)
+        else:
+            j = self.r.choice(flat)
+            x = v[j]
+            if isinstance(x, (list, dict)):
+                n = self.r.choice([k for k in (0, 1, 2, 3) if not isinstance(x, list) or k != len(x)])
+                failing = ("arr", [self.fresh() for _ in range(n)])
+            else:
+                failing = self.wrong_lit(x)
+        items = []
+        for i, x in enumerate(v):
+            if i == j:
+                items.append(failing)
+            elif i < j:
+                items.append(self.fresh() if self.r.random() < 0.75 or isinstance(x, (list, dict)) else self.derive(x, 1, False, False))
+            else:
+                items.append(self.derive(x, 1, self.r.random() < 0.3, False) if not isinstance(x, (list, dict)) else self.fresh())
+        return ("arr", items)
+
+    def hit(self, subj):
+        """an alternative that matches (verified with the reference matcher)"""
+        for _ in range(6):
+            self.free = self.r.sample(NAMES, len(NAMES))
+            p = self.derive(subj, 3, False)
+            try:
+                if matches(subj, p) is not None:
+                    return p
+            except RuntimeErr:
+                pass
+        return ("id", self.r.choice(NAMES))
+
     def alternative(self, subj, miss=False):
         self.free = self.r.sample(NAMES, len(NAMES))
         if self.r.random() < 0.75:
@@ -169,10 +218,17 @@ def is_literal(v):
 
 
 def build(rng, cid, subj, cases, via):
-    env0 = {n: "g" + n for n in NAMES + ["_"]}
+    # some outer names stay unset: a body that reads one sees <unknown>, never a binding of a failed alternative
+    unset = set(n for n in NAMES if rng.random() < 0.2)
+    env0 = {n: (UNSET if n in unset else "g" + n) for n in NAMES + ["_"]}
     head = ["function say(l, v) { print \"B\", l\n return v }", "{"]
-    head += [" %s = \"g%s\"" % (n, n) for n in NAMES + ["_"]]
-    if via == "doc":
+    head += [" %s = \"g%s\"" % (n, n) for n in NAMES + ["_"] if n not in unset]
+    pre = []
+    if via == "call":
+        # the subject expression has a side effect: it is evaluated exactly once, whatever the number of cases
+        head.insert(1, "function subjf() { print \"T\"\n return %s }" % pyref.literal(subj))
+        subj_src, doc, pre = "subjf()", "{}", ["T"]
+    elif via == "doc":
         subj_src, doc = "$.s", V.to_json({"s": subj})
     elif via == "var":
         head.append(" subj = %s" % pyref.literal(subj))
@@ -188,10 +244,10 @@ def build(rng, cid, subj, cases, via):
     prog = "\n".join(head + [' print "V", match (%s) {' % subj_src] + lines + [" }", ' print "G", %s' % ", ".join(NAMES + ["_"]), "}"])
     try:
         printed, val = match_value(subj, cases, env0)
-        out = ["S"] + printed + ["V " + pyref.pretty(val), "G " + " ".join(env0[n] for n in NAMES + ["_"])]
+        out = ["S"] + pre + printed + ["V " + pyref.pretty(val), "G " + " ".join(pyref.pretty(env0[n]) for n in NAMES + ["_"])]
         outcome = "ok"
     except RuntimeErr:
-        out, outcome = ["S"], "runtime"
+        out, outcome = ["S"] + pre, "runtime"
     meta = {"prog": prog, "doc": doc, "subject": pyref.pretty(subj, True), "cases": [case_src(c) for c in cases],
             "expect_outcome": outcome, "expect_stdout": "".join(l + "\n" for l in out)}
     nontrivial = len(cases) >= 2 and any(len(c["alts"]) >= 2 for c in cases)
@@ -207,9 +263,21 @@ def make_cases(rng, subj):
         nalt = rng.choice([1, 1, 2, 2, 3])
         hit = rng.randrange(nalt)
         alts = [pg.alternative(subj, miss=(i < target or (i == target and a != hit))) for a in range(nalt)]
+        if isinstance(subj, list) and i <= target and rng.random() < 0.45:
+            # alternatives that bind names and then fail on a later element, before one that matches (in the target case)
+            # or before the next case: nothing they bound may be visible in any body
+            pg.free = rng.sample(NAMES, len(NAMES))
+            lm = [pg.late_miss(subj) for _ in range(rng.choice([1, 1, 2]))]
+            lm = [x for x in lm if x is not None]
+            if lm:
+                alts = lm + ([pg.hit(subj)] if i == target else []) + (alts[:1] if rng.random() < 0.3 else [])
+                alts = alts[:3]
         names = sorted(set(n for a in alts for n in pat_names(a, [])))
         if rng.random() < 0.3:
             names = sorted(set(names + [rng.choice(NAMES)]))          # a name this case does not bind: the outer variable
+        if cases and rng.random() < 0.4:
+            # names that only alternatives of EARLIER cases mention
+            names = sorted(set(names + [n for c0 in cases for a in c0["alts"] for n in pat_names(a, [])][:3]))
         body = rng.choice(["block", "exprlist", "exprlist", "exprone", "const"])
         if not names and body in ("exprlist", "exprone"):
             body = "const"
@@ -223,6 +291,9 @@ def make_cases(rng, subj):
 
 
 FIXED = [
+    ([1.0, 2.0], [[("arr", [("id", "x"), ("lit", 3.0)]), ("arr", [("id", "y"), ("lit", 2.0)])]]),
+    ([[5.0, 6.0], 2.0], [[("arr", [("arr", [("id", "x"), ("lit", 9.0)]), ("id", "y")]), ("id", "z")]]),
+    ([1.0, 2.0], [[("arr", [("id", "x"), ("lit", 3.0)])], [("arr", [("id", "y"), ("lit", 2.0)])]]),
     ([2.0, 5.0], [[("arr", [("lit", 1.0), ("id", "x")]), ("arr", [("lit", 2.0), ("id", "x")])]]),
     ([2.0, 5.0], [[("arr", [("lit", 1.0), ("id", "x")]), ("id", "y")]]),
     ([2.0, 5.0], [[("arr", [("id", "x")]), ("arr", [("id", "x"), ("id", "y"), ("id", "z")]), ("arr", [("id", "y"), ("lit", 5.0)])]]),
@@ -257,15 +328,15 @@ class C19(Check):
         for subj, caselists in FIXED:
             cl = []
             for i, alts in enumerate(caselists):
-                names = sorted(set(nm for a in alts for nm in pat_names(a, [])))
+                names = sorted(set(nm for al in caselists[:i + 1] for a in al for nm in pat_names(a, [])))
                 cl.append({"alts": alts, "body": "exprlist" if names else "const", "label": "L%d" % i, "show": names, "const": float(i)})
-            for via in ("lit", "var") + (("doc",) if not V.has_unset(subj) else ()):
+            for via in ("lit", "var", "call") + (("doc",) if not V.has_unset(subj) else ()):
                 cases.append(build(rng, "f%d" % k, subj, cl, via))
                 k += 1
         for k in range(n):
             subj = subject(rng, rng.choice([0, 1, 2, 2, 3, 3]))
             cl = make_cases(rng, subj)
-            via = rng.choice(["lit", "var", "doc"])
+            via = rng.choice(["lit", "var", "doc", "doc", "call"])
             if V.has_unset(subj) and via == "doc":
                 via = "var"
             cases.append(build(rng, "m%d" % k, subj, cl, via))
